@@ -25,8 +25,17 @@ PROP = dict(
         # the archiver's use of the limiter: real archiver.Start/worker/archive() + real HTTP against a local origin with a
         # scripted status sequence per host, max-retry 0-2; requests observed as they arrive at the origin, bucket state
         # (failure count, rate) read after the first item
-        dict(driver="archrl", binary="zratearch", noshrink=True, quick=14, thorough=150, shard=50,
-             monitors=["penalty_honoured_at_origin_across_items", "every_failure_answer_reported_5xx_lowers_rate"]),
+        # one driver process per (capacity, rate) pair - the archiver can be started once per process; capacity != rate so
+        # that the order of the two values in archiver.Start is visible
+        dict(driver="archrl", binary="zratearch", noshrink=True, env={"ZV_ARCHRL_CONF": "2,7"}, quick=8, thorough=60, shard=50,
+             monitors=["penalty_honoured_at_origin_across_items", "every_failure_answer_reported_5xx_lowers_rate",
+                       "limiter_built_with_operator_capacity_and_rate", "window_bound_at_origin_with_configured_values"]),
+        dict(driver="archrl", binary="zratearch", noshrink=True, env={"ZV_ARCHRL_CONF": "9,1"}, quick=6, thorough=50, shard=50,
+             monitors=["penalty_honoured_at_origin_across_items", "every_failure_answer_reported_5xx_lowers_rate",
+                       "limiter_built_with_operator_capacity_and_rate", "window_bound_at_origin_with_configured_values"]),
+        dict(driver="archrl", binary="zratearch", noshrink=True, env={"ZV_ARCHRL_CONF": "150,50"}, quick=6, thorough=50, shard=50,
+             monitors=["penalty_honoured_at_origin_across_items", "every_failure_answer_reported_5xx_lowers_rate",
+                       "limiter_built_with_operator_capacity_and_rate", "window_bound_at_origin_with_configured_values"]),
         # hosts in continuous use while the stale-bucket sweep ticks (cleanup period 250-400 ms real time, table far from full):
         # a bucket accessed within the last period is never swept, window/penalty bounds hold across the ticks
         dict(driver="mgrsweep", binary="zrate", noshrink=True, quick=10, thorough=150, shard=40,
